@@ -88,9 +88,9 @@ func genOp(t *rapid.T) Op {
 }
 
 func genCase(t *rapid.T) Case {
-	if den := uint64(1200); gen.Chance(t, "giant", 1, den) {
+	if den := uint64(2500); gen.Chance(t, "giant", 1, den) {
 		// sizes the format allows and the other cases never reach: any certificate size, any count, any total
-		return Case{Giant: rapid.IntRange(1, 3).Draw(t, "giantkind")}
+		return Case{Giant: rapid.SampledFrom([]int{1, 1, 2, 2, 3}).Draw(t, "giantkind")}
 	}
 	lists := gen.ESLStreamHuge(6).Draw(t, "stream")
 	c := Case{}
